@@ -125,14 +125,21 @@ func (m *paceMonitor) check() (string, string) {
 			}
 			m.steps[st.Idx] += int(c.view - p.view)
 		}
-		// one ViewChangeEvent per step, in order
-		if c.nvc-p.nvc != int(c.view-p.view) {
+		// every change of the view is signalled: the ViewChangeEvents since the last observation announce strictly rising
+		// views above the old one and end with the view the replica is in now (a replica may enter the view after its
+		// certificate directly, so one event can cover several views); no event without a change
+		if (c.view > p.view) != (c.nvc > p.nvc) {
 			return "pace:viewchange-events", fmt.Sprintf("%s: view went from %d to %d but %d ViewChangeEvents were signalled", who, p.view, c.view, c.nvc-p.nvc)
 		}
+		last := p.view
 		for i := p.nvc; i < c.nvc; i++ {
-			if want := p.view + hotstuff.View(i-p.nvc) + 1; st.ViewChanges[i].View != want {
-				return "pace:viewchange-events", fmt.Sprintf("%s: ViewChangeEvent #%d announces view %d, want %d", who, i, st.ViewChanges[i].View, want)
+			if v := st.ViewChanges[i].View; v <= last || v > c.view {
+				return "pace:viewchange-events", fmt.Sprintf("%s: ViewChangeEvent #%d announces view %d after view %d while the replica went from view %d to %d", who, i, v, last, p.view, c.view)
 			}
+			last = st.ViewChanges[i].View
+		}
+		if last != c.view {
+			return "pace:viewchange-events", fmt.Sprintf("%s: the replica is in view %d but the last view change it signalled is to view %d", who, c.view, last)
 		}
 	}
 	return "", ""
@@ -225,7 +232,7 @@ func genC07(rt *rapid.T) Case {
 		ActorWeights: map[int]int{AProposeHonest: 3, AProposeWeird: 2, AVote: 1, AAssembleQC: 5, ARelabelQC: 7, ATimeout: 7, ANewView: 10,
 			ARepeatQC: 4, AReplay: 5, AEquivocate: 1, AToggleFetch: 1, AVoteHonestly: 3, AForgedTC: 7, AProposeSkip: 1, AProposeStaleQC: 2, AProposeOnForged: 3}}
 	cfg := GenConfig(rt, o)
-	return Case{Cfg: cfg, Steps: GenSteps(rt, cfg, o)}
+	return Case{Cfg: cfg, Steps: GenSchedule(rt, cfg, o)}
 }
 
 func TestC07Pacemaker(t *testing.T) {
